@@ -250,13 +250,15 @@ Lemma ell_base_coords :
   exists R, pt_mul K_ref ell (pt_base K_ref) = R /\ px R = 0 /\ py R = pz R.
 Proof. eexists. split; [vm_compute; reflexivity|]. split; reflexivity. Qed.
 
-Definition Ln : nat := Z.to_nat ell.
+(* the group order as a natural number; a NOTATION, so that no conversion test ever has to unfold a constant
+   against [Z.to_nat ell] (which would evaluate a 252-bit unary number) *)
+Notation Ln := (Z.to_nat ell).
 
 Lemma base_order K : nmul Ln (aff (pt_base K)) = eid.
 Proof.
   assert (EB : pt_base K = pt_base K_ref) by (unfold pt_base; now rewrite fmul_K).
   rewrite EB. destruct (pt_mul_correct K_ref ell _ (valid_base K_ref)) as [V A].
-  unfold Ln. rewrite <- A.
+  rewrite <- A.
   destruct ell_base_coords as (R & ER & Hx & Hy). rewrite ER in V |- *. clear ER A.
   destruct V as (Hz & _ & _).
   unfold aff. rewrite Hx, Hy, F_0. unfold Edwards.eid.
@@ -266,7 +268,7 @@ Qed.
 (* multiples only depend on the multiplier modulo the order *)
 Lemma nmul_mod A (a : nat) : onc A -> nmul Ln A = eid -> nmul (a mod Ln) A = nmul a A.
 Proof.
-  intros C H. assert (Ln <> 0)%nat by (unfold Ln; intro E; apply (f_equal Z.of_nat) in E; rewrite Z2Nat.id in E; discriminate).
+  intros C H. assert (Ln <> 0)%nat by (intro E; apply (f_equal Z.of_nat) in E; rewrite Z2Nat.id in E; discriminate).
   rewrite (Nat.div_mod a Ln) at 2 by assumption.
   rewrite (E_nmul_add _ _ _ C). rewrite Nat.mul_comm. rewrite (E_nmul_mul _ _ _ C). rewrite H, E_nmul_eid.
   now rewrite E_id_l.
@@ -277,7 +279,7 @@ Lemma nmul_congr A (a b : Z) : onc A -> nmul Ln A = eid -> 0 <= a -> 0 <= b -> a
 Proof.
   intros C H Ha Hb E.
   rewrite <- (nmul_mod A (Z.to_nat a) C H), <- (nmul_mod A (Z.to_nat b) C H).
-  f_equal. unfold Ln. apply Nat2Z.inj. rewrite !Nat2Z.inj_mod, !Z2Nat.id by (try assumption; discriminate). exact E.
+  f_equal. apply Nat2Z.inj. rewrite !Nat2Z.inj_mod, !Z2Nat.id by (try assumption; discriminate). exact E.
 Qed.
 
 (* ---------------------------------------------------------------- the ristretto backend record *)
